@@ -537,6 +537,14 @@ class Session(Family):
                    "end": rng.choice(["close", "close", "reset", "stall"]), "end_delay": rng.choice([0.0, 0.25, 1.0]),
                    "connect_delay": rng.choice([0.0, 0.0, 0.0, 0.5, timeout + 1.0]) if rng.random() < 0.3 else 0.0,
                    "timeout": timeout, "dt": rng.random() < 0.9}
+        # uploads larger than a transport's high-water mark to a peer that stops reading (the transport signals
+        # pause_writing and never resumes) and then stalls, closes or resets: cut off at the timeout all the same
+        sizes = [70000, 300000, 3, 1 << 20]
+        for i in range(max(4, n // 40)):
+            timeout = rng.choice([2.0, 5.0])
+            yield {"op": "upload", "stream": [], "cls": "wpause", "cuts": [], "delays": [0.0],
+                   "end": ["stall", "stall", "close", "reset"][i % 4], "end_delay": rng.choice([0.5, timeout + 3.0]), "connect_delay": 0.0, "timeout": timeout, "dt": True,
+                   "content_len": sizes[i % len(sizes)] + rng.randint(0, 9), "pause_after": rng.choice([0, 65536, 100000])}
 
     def impl(self, case):
         from nauyaca.client.session import GeminiClient
@@ -547,6 +555,7 @@ class Session(Family):
         delays = (case["delays"] + [0.0] * len(chunks))[: len(chunks)]
         loop = VLoop()
         script = ServerScript(chunks, delays, case["end"], case["end_delay"], case["connect_delay"])
+        script.pause_after = case.get("pause_after")
         loop.scripts.append(script)
         loop.set_exception_handler(lambda lp, ctx: script.escaped.append(ctx.get("exception")) if ctx.get("exception") else None)
         try:
@@ -559,7 +568,7 @@ class Session(Family):
                 if case["op"] == "get":
                     r = await client.get("gemini://example.org/p", follow_redirects=False)
                 else:
-                    r = await client.upload("gemini://example.org/up", b"abc", mime_type="text/plain", token="t")
+                    r = await client.upload("gemini://example.org/up", b"abc" if "content_len" not in case else b"u" * case["content_len"], mime_type="text/plain", token="t")
                 return ["resp", r.status, (r.meta or "").encode("utf-8", "surrogatepass").hex(), canon_body(r.body)]
             except TimeoutError as e:
                 return ["timeout", str(e).split(":")[0]]
@@ -567,7 +576,12 @@ class Session(Family):
                 return ["err", type(e).__name__]
 
         try:
-            res = loop.run_until_complete(go())
+            try:
+                res = loop.run_until_complete(go())
+            except RuntimeError as e:
+                if "would hang forever" not in str(e):
+                    raise
+                res = ["hang", "never-ends"]
             elapsed = loop.time()
             for t in loop.tasks:
                 t.cancel()
@@ -582,6 +596,8 @@ class Session(Family):
         T = case["timeout"]
         res, el = obs["res"], obs["elapsed"]
         eps = 1e-6
+        if res[0] == "hang":
+            return ("no-timeout-cutoff", f"{case['op']}: nothing is scheduled any more and the call has not ended (virtual time {el}, timeout {T}): it would hang forever")
         # never later than one timeout per phase (connect, response)
         if el > 2 * T + eps:
             return ("no-timeout-cutoff", f"the call took {el} virtual seconds with timeout {T}")
